@@ -1,6 +1,8 @@
 mod c01;
 mod c02;
+mod c11;
 mod codec;
+mod cont;
 mod util;
 
 use util::*;
@@ -21,6 +23,26 @@ fn main() {
         "C01" => {
             let mut rep = Report::new("C01", "cases = (format variant, data kind, size class, partition style, option class); one PRNG; non-trivial = non-empty input; distinct = distinct signature");
             c01::run(&mut rep, &mut rng, thorough);
+            rep
+        }
+        "C11" => {
+            let mut rep = Report::new("C11", "cases = (filter, data kind incl. architecture-specific branch-dense code, size class, start-offset class); one PRNG; non-trivial = at least 16 bytes; distinct = distinct signature");
+            c11::run(&mut rep, &mut rng, thorough);
+            rep
+        }
+        "C04" => {
+            let mut rep = Report::new("C04", "valid XZ/LZIP files made by the crate's writers x corruptions: every single-bit flip (exhaustive on small files), substitutions, deletions, insertions, duplications, swaps, truncations, zeroing; plus non-format inputs. non-trivial = file with data; distinct = distinct file");
+            cont::run_c04(&mut rep, &mut rng, thorough);
+            rep
+        }
+        "C12" => {
+            let mut rep = Report::new("C12", "sequences of 1..n valid XZ streams (with stream padding of legal and illegal length) / LZIP members, decoded with multi=true and multi=false; non-trivial = more than one part; distinct = (format, count, padding residues)");
+            cont::run_c12(&mut rep, &mut rng, thorough);
+            rep
+        }
+        "C16" => {
+            let mut rep = Report::new("C16", "valid streams of every format followed by nothing / zeros / random bytes / 0xFF / another stream, read with three buffer schedules; the bytes consumed from the source must be exactly the stream; non-trivial = non-empty data; distinct = (format, trailer kind, size class, schedule)");
+            cont::run_c16(&mut rep, &mut rng, thorough);
             rep
         }
         "C02" => {
